@@ -177,7 +177,7 @@ func (x *explorer) run(g *group, m int, si int, h []step) (w *world) {
 func (x *explorer) explore(g *group, m, si int, h []step) {
 	stack := [][]step{h}
 	for len(stack) > 0 {
-		if x.r.Expired(g.Name) {
+		if x.r.Expired(g.Name) || poisoned {
 			return
 		}
 		h := stack[len(stack)-1]
@@ -282,7 +282,14 @@ func main() {
 		}
 		debug.SetGCPercent(400) // executions churn through MB-sized buffers; collect less often
 		calibrate()
-		selfCheck()
+		if !poisoned {
+			selfCheck()
+		}
+		if poisoned { // even the start-up probes (one small event) do not terminate
+			r.Violation(lastLivelock.Sig, "[start-up probe] "+lastLivelock.What, map[string]any{"history": "calibrate/selfCheck"})
+			r.Cap("worker abandoned after a livelock (the spinning goroutine cannot be stopped in-process)")
+			return
+		}
 		x := &explorer{r: r, viol: map[string]*found{}}
 		job := 0
 		part := os.Getenv("C26_PART") // "", "e4" or "e3" (debugging aid)
@@ -303,7 +310,7 @@ func main() {
 				for si := range g.Scripts {
 					for _, p := range pref {
 						job++
-						if job%n != i {
+						if job%n != i || poisoned {
 							continue
 						}
 						if len(p) == g.Prefix {
@@ -314,6 +321,9 @@ func main() {
 					}
 				}
 			}
+		}
+		if poisoned {
+			r.Cap("worker abandoned after a livelock (the spinning goroutine cannot be stopped in-process); its remaining cases were not executed")
 		}
 		var sigs []string
 		for s := range x.viol {
